@@ -22,6 +22,23 @@ impl super::Interest for Interest {
     }
 }
 
+/// The event hands the token back through `Event::get_token`, and the event loop looks the
+/// waiting coroutine up by it, so the conversion must be lossless wherever `usize` can hold it.
+#[allow(clippy::cast_possible_truncation)]
+fn mio_token(token: u64) -> Token {
+    cfg_if::cfg_if! {
+        if #[cfg(target_pointer_width = "64")] {
+            Token(usize::try_from(token).expect("token overflow"))
+        } else {
+            Token(
+                ((token >> 32) as u32 ^ token as u32)
+                    .try_into()
+                    .expect("token overflow"),
+            )
+        }
+    }
+}
+
 impl super::Event for Event {
     fn get_token(&self) -> u64 {
         self.token().0 as u64
@@ -87,28 +104,18 @@ impl super::Selector<Interest, Event, Events> for Poller {
         inner.poll(events, timeout)
     }
 
-    #[allow(clippy::cast_possible_truncation)]
     fn do_register(&self, fd: c_int, token: u64, interests: Interest) -> std::io::Result<()> {
         self.registry().register(
             &mut SourceFd(&fd),
-            Token(
-                ((token >> 32) as u32 ^ token as u32)
-                    .try_into()
-                    .expect("token overflow"),
-            ),
+            mio_token(token),
             interests,
         )
     }
 
-    #[allow(clippy::cast_possible_truncation)]
     fn do_reregister(&self, fd: c_int, token: u64, interests: Interest) -> std::io::Result<()> {
         self.registry().reregister(
             &mut SourceFd(&fd),
-            Token(
-                ((token >> 32) as u32 ^ token as u32)
-                    .try_into()
-                    .expect("token overflow"),
-            ),
+            mio_token(token),
             interests,
         )
     }
